@@ -89,7 +89,8 @@ class C06(DimwiseCheck):
     rule = ("schedule = configuration (dim 1-4, lmin, lmax, coarsening version, rebalancing, safety factor, margin, box) plus the "
             "environment's benefit answers per interval and evaluation (keyed draws: zero / tie at 1.0 / uniform / just below or just above "
             "the margin fraction of a tie; modes all-equal and all-zero; a per-run scale 1e-15 ... 1e7; families: long narrow histories "
-            "with position-biased answers, sharply localised 'focus' drivers from start levels with lmax - lmin >= 2); the real adaptive "
+            "with position-biased answers, sharply localised 'focus' drivers from start levels with lmax - lmin >= 2, boxes scaled by 1e-12 ... 1e6, drill histories of 40-52 bisections of one place, "
+            "localised histories under rebalancing interrupted and continued through the container route); the real adaptive "
             "loop runs for 1-6 (long families: up to 12) evaluations. A state is the list of intervals with point levels of "
             "all dimensions; distinct_nontrivial counts distinct states reached after a refinement step (differing from the initial grid)")
     expected_probes = ["rebalancing", "new_lmax", "split_at_coarsening_zero", "ties_at_margin", "single_split_step",
@@ -143,7 +144,7 @@ class C03(DimwiseCheck):
     budget_s = {"quick": 100.0, "thorough": 900.0}
     rule = ("schedule as for C06 (dimension-wise strategy, versions 2/3/6/7/8, rebalancing on/off, boundary on/off, arbitrary benefit "
             "answers); after every evaluation every component grid of the current scheme is inspected through the public observation "
-            "points and the combined interpolant is compared with an integrand that is arbitrary per point (keyed hash). A state is the "
+            "points and the combined interpolant is compared with an integrand that is arbitrary per point (keyed hash); in a tenth of the runs another dimension-wise object is run between each evaluation and these queries (foreign activity). A state is the "
             "interval/level structure; distinct_nontrivial counts distinct refined structures on which the combination was checked")
     expected_probes = ["rebalancing", "new_lmax", "foreign_turn_before_the_queries"]
 
@@ -304,7 +305,7 @@ class C05(DimwiseCheck):
     fixed_prefix = 1
     rule = ("schedule = strategy configuration + benefit answers + driver operations (run to a point limit, continue with larger limits - one "
             "continuation in five through a new driver call that is handed the old container -, 1-3 stops per history, recalculate_frequently "
-            "with small refinements_for_recalculate in a share of runs; StandardCombi / DimAdaptiveCombi on the local grid families that run "
+            "with small refinements_for_recalculate in a share of runs; 30 % of the histories give driver calls a time budget (max_time on the simulated clock) next to the point limit; StandardCombi / DimAdaptiveCombi on the local grid families that run "
             "here: trapezoidal, Clenshaw-Curtis, Gauss-Legendre, Simpson, Leja, Lagrange, B-spline); at every stop the "
             "reported value is compared with (1) the coefficient-weighted sum of component results recomputed by an independent composite "
             "trapezoid on the reported point lists, (2) evaluate_final_combi() (twice) on a deep copy, (3) the same history run with "
